@@ -167,7 +167,9 @@ def gen_children(rng, schema, type_, depth, budget):
 
 def gen_node(rng, schema, type_, parent_type, depth, budget):
     budget[0] -= 1
-    marks = gen_marks_ref(rng, schema, parent_type, 0.35 if type_.is_inline else 0.08) if parent_type else []
+    # a block node gets marks where its parent allows them (schemas with `marks` on a block parent): often enough that
+    # marked ancestors, marked wrapped / lifted / joined blocks and marked nodes inside gaps are all common
+    marks = gen_marks_ref(rng, schema, parent_type, 0.35 if type_.is_inline else 0.25) if parent_type else []
     if type_.is_text:
         return schema.text(gen_text(rng), marks)
     attrs = gen_attrs(rng, type_)
